@@ -21,16 +21,52 @@ import coop
 
 
 class FakeProc(object):
+    """scripted process: exits when the schedule says so; once its exit status was collected (poll / wait)
+    the process group is gone and a signal sent to it raises ESRCH"""
+    live = {}
     def __init__(self):
-        self.code, self.pid = None, 4242
+        self.code, self.pid, self.reaped = None, 4242, False
+        FakeProc.live[self.pid] = self
     def poll(self):
         coop.point('poll')
+        if self.code is not None: self.reaped = True
         return self.code
     def wait(self, timeout=None):
+        if self.code is not None: self.reaped = True
         return self.code
     def kill(self, code=137):
         if self.code is None:
             self.code = code
+
+
+class _OsProxy(object):
+    """`os` as the launch method module sees it: killpg reaches the scripted process"""
+    def __getattr__(self, k):
+        import os
+        return getattr(os, k)
+    def killpg(self, pid, sig):
+        import signal
+        if sig == signal.SIGTERM:
+            coop.point('kill')
+        p = FakeProc.live.get(pid)
+        if p is None or p.reaped:
+            raise ProcessLookupError(3, 'No such process')
+        p.kill()
+
+
+class _TimeProxy(object):
+    def __getattr__(self, k):
+        import time
+        return getattr(time, k)
+    def sleep(self, s): pass
+
+
+def real_launcher(rp):
+    """the real LaunchMethod.cancel_task (base class), with os / time of its module replaced"""
+    import radical.pilot.agent.launch_method.base as lmb
+    lm = object.__new__(lmb.LaunchMethod)
+    lm._log, lm._prof, lm.name = rpload.NullLog(), rpload.NullLog(), 'FORK'
+    return lm
 
 
 class HookTask(dict):
@@ -53,6 +89,7 @@ class HookLock(object):
 
 
 class Launcher(object):
+    """stand-in used where only the name of the launcher matters (find_launcher)"""
     def cancel_task(self, task, pid):
         coop.point('kill')
         task.fake.kill()
@@ -80,7 +117,7 @@ def make_executor(rp, rec, fault_box):
             if fault_box['fault']:
                 return None, None
             return Launcher(), 'FORK'
-        def get_launcher(self, name): return Launcher()
+        def get_launcher(self, name): return real_launcher(rp)
     p._rm = _RM()
     class _Sess(object):
         class rcfg(object): new_session_per_task = False
@@ -124,6 +161,9 @@ def run_schedule(rp, choices, drain=True):
                      'task_sandbox_path': '.', 'slots': []})
     fake = FakeProc()
     task.fake = fake
+    import radical.pilot.agent.launch_method.base as lmb
+    saved_lmb = (lmb.os, lmb.time)
+    lmb.os, lmb.time = _OsProxy(), _TimeProxy()
     saved = (popen_mod.sp.Popen, ru.ru_open)
     def fake_popen(*a, **k):
         coop.point('spawn')
@@ -241,6 +281,7 @@ def run_schedule(rp, choices, drain=True):
     finally:
         stop['watch'] = True
         popen_mod.sp.Popen, ru.ru_open = saved
+        lmb.os, lmb.time = saved_lmb
         HookTask.__setitem__ = dict.__setitem__
     quiet = all(ctl.where(n) in ('done', 'idle') for n in ctl.workers) and not to_watch and p._watch_queue.empty()
     ctl.close()
@@ -392,6 +433,8 @@ def model_choices(done):
 def run(ctx):
     rp  = rpload.load()
     rng = ctx.rng
+    from props import noopsuite
+    noopsuite.run(ctx, 'C07')
     bulk_part(ctx, rp)
     scheds = [
         ['intake', 'intake', 'intake', 'intake', 'watcher', 'watcher', ['exit', 0], 'watcher', 'watcher'],
@@ -432,6 +475,9 @@ def run(ctx):
 
 def replay(ctx, data):
     rp = rpload.load()
+    if 'noop' in data['input']:
+        from props import noopsuite
+        return noopsuite.replay(ctx, data)
     if data['input'].get('kind') == 'bulk':
         b = [tuple(x) for x in data['input']['tasks']]
         evs = run_bulk(rp, b)
